@@ -360,9 +360,9 @@ def r5_interface_and_constructor(ctx, rep):
 
 
 RULES = [
-    RuleSpec("C04.R1", r1_plumbing, "permission plumbing table", floor=18),
-    RuleSpec("C04.R2", r2_declaration_attributes, "declaration access attributes", floor=4),
-    RuleSpec("C04.R3", r3_access_statements, "access statements are order independent", floor=12),
+    RuleSpec("C04.R1", r1_plumbing, "permission plumbing table", floor=12),
+    RuleSpec("C04.R2", r2_declaration_attributes, "declaration access attributes", floor=3),
+    RuleSpec("C04.R3", r3_access_statements, "access statements are order independent", floor=7),
     RuleSpec("C04.R4", r4_order_sensitivity, "scope default not read before the specification part is complete", floor=1),
-    RuleSpec("C04.R5", r5_interface_and_constructor, "interface procedures and constructors", floor=4),
+    RuleSpec("C04.R5", r5_interface_and_constructor, "interface procedures and constructors", floor=2),
 ]
